@@ -8,6 +8,9 @@ B2 bounce addressing: Bounce is built with the (empty) class-level sender and
 B3 one bounce per group, each failed recipient in exactly one group, groups
    keyed by reply equality
 B4 the bounce goes to the configured bounce queue through enqueue()
+B5 the embedded original is what envelope.flatten() of the failed message
+   itself returns, written untransformed (header block always, body unless
+   headers-only)
 """
 from __future__ import annotations
 
@@ -37,12 +40,127 @@ def run(e: Engine, rep: Report):
              'compared equal; consumers call _perm_fail once per group')
     rep.rule('B4', '_bounce hands a truthy factory result to '
              'self.bounce_queue.enqueue and nothing else')
-    rep.not_decided += ['rendered content of the bounce (templates, '
-                        'quoting of the original message)']
+    rep.rule('B5', 'Bounce._build_message writes the two results of '
+             '<envelope parameter>.flatten() as they are; the parameter (or '
+             'a copy of it) is not changed before')
+    rep.not_decided += ['rendered content of the bounce templates']
     b1(e, rep)
     b2(e, rep)
     b3(e, rep)
     b4(e, rep)
+    b5(e, rep)
+
+
+def b5(e: Engine, rep: Report):
+    ctx = e.method_ctx(BOUNCE, '_build_message')
+    fn = ctx.func.node
+    where = ctx.func.qname
+    rep.functions.add(where)
+    envp = ctx.func.params[1]
+    fl = [n for n in walk_own(fn) if isinstance(n, ast.Assign) and
+          isinstance(n.value, ast.Call) and
+          isinstance(n.value.func, ast.Attribute) and
+          n.value.func.attr == 'flatten']
+    if not fl:
+        rep.error('anchor vanished: flatten() in Bounce._build_message')
+        return
+    a = fl[0]
+    recv = a.value.func.value
+
+    def origin(x, seen=()):
+        """'param' if x denotes the parameter or an untouched copy of it,
+        else a description of what else it is."""
+        if isinstance(x, ast.Name) and x.id == envp:
+            return 'param'
+        if isinstance(x, ast.Call) and isinstance(x.func, ast.Attribute) \
+                and x.func.attr == 'copy' and not x.args:
+            return origin(x.func.value, seen)
+        if isinstance(x, ast.Name) and x.id not in seen:
+            defs = [n.value for n in walk_own(fn)
+                    if isinstance(n, ast.Assign) and any(
+                        isinstance(t, ast.Name) and t.id == x.id
+                        for t in n.targets)]
+            uses = [n for n in walk_own(fn) if isinstance(n, ast.Call) and (
+                (isinstance(n.func, ast.Attribute) and
+                 isinstance(n.func.value, ast.Name) and
+                 n.func.value.id == x.id and n.func.attr != 'flatten') or
+                any(isinstance(y, ast.Name) and y.id == x.id
+                    for y in n.args))]
+            if uses:
+                return '`%s`, which is changed by `%s` first' % (
+                    x.id, ' '.join(ast.unparse(uses[0]).split())[:50])
+            if len(defs) == 1:
+                return origin(defs[0], seen + (x.id,))
+        return '`%s`' % ast.unparse(x)
+    o = origin(recv)
+    rep.evaluations += 1
+    rep.check(o == 'param', 'B5', where,
+              'the embedded original is flatten() of the failed message',
+              'the bounce embeds flatten() of %s instead of the failed '
+              'message as it is: header block / body of the original are '
+              'not reproduced unchanged' % o, loc=ctx.func.loc(a),
+              reason='receiver of flatten() is the envelope parameter')
+    rep.evaluations += 1
+    mut = e.cg.mutates_param(ctx, envp)
+    rep.check(not mut, 'B5', where,
+              'building the bounce does not change the failed message',
+              '_build_message (or something it passes the envelope to) '
+              'modifies the original envelope before / while embedding it',
+              loc=ctx.func.loc(), reason='no mutation of the parameter')
+    tg = a.targets[0]
+    names = [x.id for x in tg.elts] if isinstance(tg, ast.Tuple) and all(
+        isinstance(x, ast.Name) for x in tg.elts) else []
+    if len(names) != 2:
+        rep.unknown('B5', where, 'flatten() results', 'flatten() is not '
+                    'unpacked into (header block, body)',
+                    loc=ctx.func.loc(a))
+        return
+    g = e.build(ctx, raises=lambda b, n, r: set())
+    fx = e.facts(g)
+    writes = {nm: [n for n in g.nodes if n.kind == 'call' and
+                   e.call_name(n) == 'write' and n.ast.args and
+                   isinstance(n.ast.args[0], ast.Name) and
+                   n.ast.args[0].id == nm] for nm in names}
+    # any other use of the two values is a transformation
+    for nm in names:
+        other = [n for n in walk_own(fn) if isinstance(n, ast.Name) and
+                 n.id == nm and isinstance(n.ctx, ast.Load) and not any(
+                     w.ast.args[0] is n for w in writes[nm])]
+        rep.evaluations += 1
+        rep.check(bool(writes[nm]) and not other, 'B5', where,
+                  '`%s` is written as it is' % nm,
+                  '`%s` (from flatten()) is %s' % (
+                      nm, 'transformed before it is embedded' if other
+                      else 'never written into the bounce'),
+                  loc=ctx.func.loc(other[0] if other else a),
+                  reason='only use: payload.write(%s)' % nm)
+    after = dataflow.must_events_after(
+        g, lambda n: ['w:' + n.ast.args[0].id] if any(
+            n in ws for ws in writes.values()) else [],
+        edge=c07.no_call_exc)
+    fnode = [n for n in g.nodes if n.kind == 'stmt' and n.ast is a]
+    if fnode:
+        st = after.get(fnode[0].id)
+        rep.evaluations += 1
+        rep.check(isinstance(st, dataflow.Top) or
+                  ('w:' + names[0]) in (st or ()), 'B5', where,
+                  'the header block is embedded on every path',
+                  'a path through _build_message does not write the '
+                  'original header block', loc=fnode[0].loc(),
+                  reason='write(%s) on every path' % names[0])
+    hp = '%s#%d' % (ctx.func.params[3], g.entry.frame.id) \
+        if len(ctx.func.params) > 3 else None
+    for w in writes[names[1]]:
+        st = fx.at(w) or frozenset()
+        base = (fx.at(fnode[0]) if fnode else None) or frozenset()
+        extra = sorted(k for p, k in st - base
+                       if hp is None or hp not in k)
+        rep.evaluations += 1
+        rep.check(not extra, 'B5', where,
+                  'the body is embedded unless headers-only',
+                  'the body of the original is embedded only under an '
+                  'additional condition %s' % extra,
+                  loc=w.loc(), reason='guarded by `not headers_only` only')
 
 
 def b1(e: Engine, rep: Report):
@@ -279,6 +397,43 @@ def b3(e: Engine, rep: Report):
                               '_perm_fail is called with %s instead of the '
                               'loop\'s group envelope and reply' % args,
                               loc=n.loc(), reason='loop variables passed')
+    # every _perm_fail anywhere in the queue quotes either the reply of its
+    # own group or the reply carried by the whole-message exception
+    c = e.p.cls(QUEUE)
+    nsites = 0
+    for mname, m in sorted(c.methods.items()):
+        handler_names = {h.name for h in ast.walk(m.node)
+                         if isinstance(h, ast.ExceptHandler) and h.name}
+        group_vars = set()
+        for f in ast.walk(m.node):
+            if isinstance(f, ast.For) and \
+                    '_split_by_reply' in ast.unparse(f.iter):
+                group_vars |= {x.id for x in ast.walk(f.target)
+                               if isinstance(x, ast.Name)}
+        for n in walk_own(m.node):
+            if not (isinstance(n, ast.Call) and
+                    ast.unparse(n.func) == 'self._perm_fail' and
+                    len(n.args) >= 3):
+                continue
+            nsites += 1
+            rep.evaluations += 1
+            r = n.args[2]
+            ok = (isinstance(r, ast.Name) and r.id in group_vars) or (
+                isinstance(r, ast.Attribute) and r.attr == 'reply' and
+                isinstance(r.value, ast.Name) and
+                r.value.id in handler_names) or (
+                isinstance(r, ast.Call) and
+                ast.unparse(r.func).endswith('Reply'))
+            rep.check(ok, 'B3', m.qname,
+                      'the bounce quotes the reply of its own group',
+                      '_perm_fail is given `%s` as the reply: a reply picked '
+                      'out of several is quoted for recipients that failed '
+                      'with a different one (one bounce instead of one per '
+                      'distinct reply)' % ast.unparse(r), loc=m.loc(n),
+                      reason='reply of the _split_by_reply group / of the '
+                      'whole-message failure')
+    if nsites < 3:
+        rep.error('anchor vanished: _perm_fail call sites (%d < 3)' % nsites)
 
 
 def truthiness_overloaded(e: Engine, cq: str):
